@@ -201,10 +201,12 @@ func (m *monState) checkSaveStep(si *StepInfo, pre, post *Snap, evs []Event) {
 	for pname, jobs := range byPipe {
 		def := w.defs.pipe(pname)
 		if def == nil {
-			// r5: purged
+			// r5: purged - the finished ones. (A job that is still running or waiting cannot simply be forgotten: it would
+			// go on executing, or sit on the wait list, as a job nobody can see; see finding F11. Whether such a job is
+			// kept until it has finished is not demanded here either way.)
 			for _, j := range jobs {
-				if removed[j.Name] == nil {
-					run.violate("C12", "r5", "step %d: job %s of pipeline %s, which is no longer defined, survived a save", si.N, j.Name, pname)
+				if removed[j.Name] == nil && j.Terminal() {
+					run.violate("C12", "r5", "step %d: finished job %s of pipeline %s, which is no longer defined, survived a save", si.N, j.Name, pname)
 				}
 			}
 			run.probe("purge_undefined_pipeline")
@@ -519,6 +521,7 @@ func (m *monState) onRestart(nw, old *World) {
 	m.shutdownJobsRunningAtBegin = nil
 	m.forcedCancel = map[string]bool{}
 	m.snapAtSave = map[int]*Snap{}
+	m.liveExec = map[string]int{} // the executions of the dead process died with it
 	m.initialLoaded = canonPersisted(loaded)
 	m.stableChecked = 0
 	m.lastChangeAt = s.At
